@@ -32,9 +32,11 @@ CHECKS = {
         text="webdav.etag_matches is TRANSLATED from /repo's source to Lean on every run and proved equal to the model, "
              "which is proved to implement RFC 7232 on every well-formed header (any list, any padding, any resource "
              "state); on the handler model: failing If-Match/If-None-Match => 412 and the world is unchanged, an "
-             "acknowledged PUT satisfied its conditions, DELETE and GET(304) likewise, and the replace_etag/etag "
-             "arguments of all three stores. Header grid is exhaustive through the real function; HTTP histories run "
-             "through both front ends.",
+             "acknowledged PUT satisfied its conditions, DELETE (of members and of whole collections, whose ETag is "
+             "the collection tag) and GET/HEAD (304) likewise, and the replace_etag/etag arguments of all three stores. "
+             "Header grid is exhaustive through the real function; HTTP histories (GET and HEAD, one or both "
+             "conditional headers, every path read back under matching and non-matching conditions) run through "
+             "both front ends.",
         note="translator (harness/translate.py) is trusted for etag_matches; handler and front-end header plumbing are "
              "tied by correspondence (sampling) — the WSGI/aiohttp adapters are exercised, not proved.",
         tech="Python->Lean translation + Lean 4 proof against an RFC 7232 spec + differential correspondence",
@@ -73,8 +75,10 @@ CHECKS = {
         ref="5/C07"),
     "C08": dict(
         text="Tag = content-addressed tree: equal tags iff equal versioned contents is proved by map extensionality; "
-             "unchanged by non-acknowledged requests (corollary of the C01 refinement); the harness recomputes the git "
-             "tree hash of the observed entries and a Lean monitor compares all pairs of points of each history.",
+             "unchanged by non-acknowledged requests (corollary of the C01 refinement); a PUT replaces at most one "
+             "collection of the world, so the tag of every other collection is unchanged (C08Http); the harness "
+             "recomputes the git tree hash of the observed entries, a Lean monitor compares all pairs of points of "
+             "each history, and the tags must not move across restarts nor — for the home sets — at all.",
         note="'contents' includes the versioned metadata file (.xandikos), see DESIGN.md 1.4; SHA-1 collision-freeness.",
         tech="Lean 4 proof over the content-addressed model + all-pairs trace monitor",
         ref="5/C08"),
